@@ -1225,7 +1225,7 @@ func rangeIter(fr *frame, x value) iter {
 	switch x := x.(type) {
 	case *omap:
 		order := x.live()
-		if fr.m.mapOrderNondet && len(order) > 1 {
+		if len(order) > 1 && fr.m.mapOrderApplies(fr) {
 			// all permutations as a sequence of choices
 			fr.m.schedDep = true
 			perm := make([]int, 0, len(order))
@@ -1658,4 +1658,21 @@ func fandbits[F floaty](x, y F) F {
 		*(*uint64)(unsafe.Pointer(&x)) &= *(*uint64)(unsafe.Pointer(&y))
 	}
 	return x
+}
+
+// mapOrderApplies reports whether ranging over a map in fr's function explores all orders.
+func (m *machine) mapOrderApplies(fr *frame) bool {
+	if m.mapOrderNondet {
+		return true
+	}
+	if len(m.mapOrderFuncs) == 0 || fr.fn == nil {
+		return false
+	}
+	name := fr.fn.String()
+	for _, f := range m.mapOrderFuncs {
+		if strings.Contains(name, f) {
+			return true
+		}
+	}
+	return false
 }
